@@ -30,6 +30,19 @@ def real_matrices(n, pos, kind="str"):
         cm = getattr(obj, meth)(list(levels))
         labels = [0 if l == "mean" else [str(x) for x in levels].index(l) + 1 for l in cm.labels]
         out[key] = {"m": design.to_int_matrix(cm.matrix) if cm.matrix.shape[1] else [[] for _ in range(n)], "labels": labels}
+    # an encoding object is a value: using it for another set of levels first must not change what it does here
+    out["reuse_ok"] = True
+    other = [levels[pos - 1]] + [x for x in NAMESETS[kind][:n + 2][::-1] if x != levels[pos - 1]]
+    for cls, meth, key in ((Treatment, "code_without_intercept", "tr"), (Treatment, "code_with_intercept", "tf"), (Sum, "code_without_intercept", "sr"), (Sum, "code_with_intercept", "sf")):
+        for first in (cls(levels[pos - 1]), cls()):
+            explicit = first.__dict__.get("reference", first.__dict__.get("omit")) is not None
+            try:
+                getattr(first, meth)(list(other))
+                again = getattr(first, meth)(list(levels))
+                fresh = getattr(cls(levels[pos - 1]) if explicit else cls(), meth)(list(levels))
+                out["reuse_ok"] = out["reuse_ok"] and np.array_equal(np.asarray(again.matrix), np.asarray(fresh.matrix)) and list(again.labels) == list(fresh.labels)
+            except Exception:  # pylint: disable=broad-except
+                out["reuse_ok"] = False
     # defaults: reference = first level, omitted = last level
     out["default_ok"] = True
     if pos == 1:
@@ -62,6 +75,8 @@ def spec_vs_code(rep, maxn):
                     want_m = [list(r) for r in c[key]["m"]]
                     if real[key]["m"] != want_m or real[key]["labels"] != list(c[key]["labels"]):
                         rep.violation({"clause": "contrast_matrix_differs_from_spec", "coding": key, "site": "formulae.categorical"}, {"n": c["n"], "pos": c["pos"], "level_values": kind, "got": real[key], "want": c[key]})
+                if not real["reuse_ok"]:
+                    rep.violation({"clause": "encoding_object_remembers_earlier_levels", "site": "formulae.categorical"}, {"n": c["n"], "pos": c["pos"], "level_values": kind})
                 if not real["default_ok"]:
                     rep.violation({"clause": "default_reference_or_omitted_level", "site": "formulae.categorical"}, {"n": c["n"], "pos": c["pos"], "level_values": kind})
         c0 = table.get((3, 2))
